@@ -189,6 +189,7 @@ func (c *pChunker) start(ctx context.Context) {
 			return
 		default: // We weren't asked to stop and weren't interrupted, carry on
 		}
+		verifYield("pchunk.next")
 		start, b, err := c.chunker.Next()
 		if err != nil {
 			c.err = err
@@ -208,7 +209,9 @@ func (c *pChunker) start(ctx context.Context) {
 
 		// Store it in our bucket
 		chunk := IndexChunk{Start: start, Size: uint64(len(b)), ID: id}
+		verifYield("pchunk.send")
 		c.results <- chunk
+		verifYield("pchunk.sync")
 
 		// Check if the next worker already has this chunk, at which point we stop
 		// here and let the next continue
@@ -234,6 +237,7 @@ func (c *pChunker) start(ctx context.Context) {
 
 		// If the next worker has stopped and has no more chunks in its bucket,
 		// we want to skip that and try to sync with the one after
+		verifYield("pchunk.skip")
 		if c.next != nil && !c.next.active() && len(c.next.results) == 0 {
 			c.next = c.next.next
 		}
@@ -264,6 +268,7 @@ func (c *pChunker) syncWith(chunk IndexChunk) (bool, uint64) {
 	for chunk.Start > c.sync.Start {
 		prev = c.sync
 		var ok bool
+		verifYield("pchunk.syncrecv")
 		select {
 		case c.sync, ok = <-c.results:
 			if !ok {
@@ -292,6 +297,7 @@ func (c *pChunker) syncWith(chunk IndexChunk) (bool, uint64) {
 		n = prev.Start + prev.Size - chunk.Start
 		for {
 			var ok bool
+			verifYield("pchunk.nullrecv")
 			select {
 			case c.sync, ok = <-c.results:
 				if !ok {
